@@ -103,7 +103,7 @@ def make_workdir(prefix='verif-tlc-'):
 
 def run(module, cfg_text=None, cfg=None, workdir=None, workers=None, simulate=None,
         depth=None, seed=None, env=None, timeout=900, deadlock=None, coverage=False,
-        extra_modules=None, dfs=False, heap='4g', keep=False, want_beh=True):
+        extra_modules=None, dfs=False, heap='4g', keep=False, want_beh=True, stack=None):
     """Run TLC on `module` (name without .tla; must exist in spec/ or in extra_modules).
 
     cfg_text  -- contents of the .cfg to use (written as MC.cfg in the scratch dir), or
@@ -129,6 +129,8 @@ def run(module, cfg_text=None, cfg=None, workdir=None, workers=None, simulate=No
             cfgname = cfg
         meta = tempfile.mkdtemp(prefix='meta-', dir=wd)
         cmd = ['java', '-XX:+UseParallelGC', '-Xmx' + heap]
+        if stack:
+            cmd.append('-Xss' + stack)
         if dfs:
             cmd.append('-Dtlc2.tool.queue.IStateQueue=StateDeque')
         cmd += ['-cp', JAR + ':' + DEPS, 'tlc2.TLC', '-metadir', meta, '-noGenerateSpecTE',
@@ -165,6 +167,8 @@ def run(module, cfg_text=None, cfg=None, workdir=None, workers=None, simulate=No
         # Machinery failure classes: parse errors, config errors, evaluation errors
         if res.rc not in (0, 10, 11, 12, 13):
             raise TLCError('TLC failed (rc=%s) on %s:\n%s' % (res.rc, module, _tail(out)))
+        if 'StackOverflowError' in out:
+            raise TLCError('TLC evaluator stack overflow on %s (use stack=...)' % module)
         if res.rc == 10:
             raise TLCError('TLC assumption failure on %s:\n%s' % (module, _tail(out)))
         return res
